@@ -4,6 +4,7 @@ import (
 	"fmt"
 	"math/rand/v2"
 	"net/netip"
+	"slices"
 	"sync/atomic"
 	"time"
 
@@ -569,6 +570,7 @@ func RunPex(sw *Swarm, rng *rand.Rand) (tr *Tor, stats map[string]int) {
 	for i := 0; i < nobs; i++ {
 		r := tr.Connect(RemoteOpts{Fast: rng.IntN(2) == 0, Ext: true})
 		r.SendExt0(StdExt0(0, 0))
+		r.KeepAlives(100 * time.Second) // or storrent times the observer out five minutes into the history
 		obs = append(obs, r)
 	}
 	sw.Cut()
@@ -581,6 +583,7 @@ func RunPex(sw *Swarm, rng *rand.Rand) (tr *Tor, stats map[string]int) {
 	join := func(i int) {
 		opt := RemoteOpts{Fast: rng.IntN(2) == 0, Ext: rng.IntN(4) != 0, Addr: Addr(100 + i), ID: []byte(fmt.Sprintf("-VF0002-pool%08d", i))}
 		r := tr.Connect(opt)
+		r.KeepAlives(100 * time.Second) // a pool peer leaves when the history says so, not when storrent times it out
 		if opt.Ext {
 			e := StdExt0(0, 0)
 			if rng.IntN(4) == 0 {
@@ -600,6 +603,44 @@ func RunPex(sw *Swarm, rng *rand.Rand) (tr *Tor, stats map[string]int) {
 		conn[i].Close()
 		conn[i] = nil
 		stats["leave"]++
+	}
+	if stats["bigpool"] > 0 && rng.IntN(2) == 0 {
+		// the whole pool arrives within one PEX interval, so every observer learns of it in two messages (50 and
+		// the rest); then peers from either message — the last to arrive among them — leave, come back and
+		// leave again, a round apart each time
+		for k := 0; k < pool; k++ {
+			join(k)
+		}
+		sw.Cut()
+		time.Sleep(3 * 61 * time.Second)
+		sw.Cut()
+		churn := rng.Perm(pool)[:pool/3]
+		for k := pool - 4; k < pool; k++ {
+			if !slices.Contains(churn, k) {
+				churn = append(churn, k)
+			}
+		}
+		for round := 0; round < 2 && !sw.C.Violated(); round++ {
+			for _, k := range churn {
+				if conn[k] != nil {
+					leave(k)
+				}
+			}
+			time.Sleep(61 * time.Second)
+			sw.Cut()
+			if round == 0 {
+				for _, k := range churn {
+					join(k)
+				}
+				stats["rejoin"] += len(churn)
+				time.Sleep(61 * time.Second)
+				sw.Cut()
+			}
+		}
+		stats["bigpool_all_at_once"]++
+		if sw.C.Violated() {
+			return
+		}
 	}
 	steps := 15 + rng.IntN(25)
 	for s := 0; s < steps; s++ {
